@@ -1232,7 +1232,8 @@ package url
 //@   ensures len(result) == specNameCnt(content(s.params), off(s.params), fieldMap(s.params[0].Name), len(s.params), name)   [C11 get-all-is-the-ordered-filter]
 //@   ensures forall j int :: (0 <= j && j < len(s.params) && s.params[j].Name == name) ==>
 //@           result[specNameCnt(content(s.params), off(s.params), fieldMap(s.params[0].Name), j, name)] == s.params[j].Value   [C11 get-all-is-the-ordered-filter]
-//@   loop 1 invariant 0 <= $i && $i <= len(s.params) && len(result) == specNameCnt(content(s.params), off(s.params), fieldMap(s.params[0].Name), $i, name)
+//@   loop 1 invariant 0 <= $i && $i <= len(s.params)
+//@   loop 1 invariant len(result) == specNameCnt(content(s.params), off(s.params), fieldMap(s.params[0].Name), $i, name)
 //@   loop 1 invariant forall j int :: (0 <= j && j < $i && s.params[j].Name == name) ==>
 //@           (0 <= specNameCnt(content(s.params), off(s.params), fieldMap(s.params[0].Name), j, name) && specNameCnt(content(s.params), off(s.params), fieldMap(s.params[0].Name), j, name) < len(result))
 //@   loop 1 invariant forall j int :: (0 <= j && j < $i && s.params[j].Name == name) ==>
